@@ -159,17 +159,27 @@ macro_rules! field_harnesses {
             assert!(<$F as U128Conversions>::as_u128(&r) == val(&r));
         }
 
-        /// `TryFrom<u128>`: Ok exactly when the value fits in BITS bits, and then it is `modulo_prime_u128(v)`.
-        /// (Only the Ok side is executed; the Err side formats a message and is decided by the guard alone.)
+        /// `format!` only builds the error message of the Err arm; stubbed because CBMC's symbolic execution walks
+        /// the formatting machinery even on the infeasible branch (minutes), and the message is not part of the contract.
+        fn stub_format(_args: std::fmt::Arguments<'_>) -> String {
+            String::new()
+        }
+
+        /// `TryFrom<u128>`: a value that fits in BITS bits is accepted and reduced to its canonical representative;
+        /// a value that does not fit is rejected (never silently truncated).
         #[kani::proof]
-        #[kani::solver(z3)]
+        #[kani::stub(alloc::fmt::format, stub_format)]
         fn try_from_ok_side() {
             let v: u128 = kani::any();
-            kani::assume(v >> $bits == 0);
-            kani::cover!(v >= P);
+            let fits = v >> $bits == 0;
+            kani::cover!(fits && v >= P);
+            kani::cover!(!fits);
             match <$F as TryFrom<u128>>::try_from(v) {
-                Ok(r) => assert!(r == $F::modulo_prime_u128(v)),
-                Err(_) => assert!(false, "try_from rejected a value that fits in BITS bits"),
+                Ok(r) => {
+                    assert!(fits, "a value wider than BITS bits was accepted");
+                    assert!(reduce_post(v, &r));
+                }
+                Err(_) => assert!(!fits, "try_from rejected a value that fits in BITS bits"),
             }
         }
 
